@@ -67,7 +67,7 @@ structure FmInfo where
   y0 : Nat
   x0 : Nat
   c0 : Nat
-  shift : Int := 0       -- extra base offset the operation applies on top of the box origin (tile_base_offsets)
+  shifts : List Int := [0, 0, 0, 0]   -- per-tile base offsets the operation applies on top of the box origin (tile_base_offsets), tile order of `fmAddr`
 deriving Repr, Inhabited
 
 structure OpInfo where
@@ -189,7 +189,7 @@ deriving Repr, Inhabited
 
 /-- feature-map read (data living in the constants region is never written by the stream and is not tracked) -/
 def fmRead (e : Env) (what : String) (fm : FM) (fi : FmInfo) : List Read :=
-  if fm.region = e.constRegion then [] else [⟨what, fm.region, fi.tid, fmPieces fm fi.y0 fi.x0 fi.c0, fi.shift⟩]
+  if fm.region = e.constRegion then [] else [⟨what, fm.region, fi.tid, fmPiecesS fm fi.y0 fi.x0 fi.c0 fi.shifts, 0⟩]
 
 /-- weight / scale ranges: each must hold the copy of the constants-region bytes at `src` -/
 def constReads (e : Env) (what : String) (rs : List AddrRange) (srcs : List Int) : List Read :=
@@ -218,7 +218,7 @@ def readErr (m : Memory) (idx : Nat) (r : Read) : List String :=
 
 def stepBlock (e : Env) (m : Memory) (idx : Nat) (b : BlockOp) (i : OpInfo) : List String × Memory :=
   ((blockReads e b i).flatMap (readErr m idx),
-   writePieces m b.ofm.region i.ofm.tid (fmPieces b.ofm i.ofm.y0 i.ofm.x0 i.ofm.c0) i.ofm.shift)
+   writePieces m b.ofm.region i.ofm.tid (fmPiecesS b.ofm i.ofm.y0 i.ofm.x0 i.ofm.c0 i.ofm.shifts) 0)
 
 def stepDma (e : Env) (m : Memory) (idx : Nat) (d : DmaOp) (i : DmaInfo) : List String × Memory :=
   ((dmaReads e d i).flatMap (readErr m idx),
